@@ -34,6 +34,16 @@ CHECKS = {
         note="Trusts TLC, BigInt, clang UBSan (float-cast-overflow) as event source, x87 long double.  Floating sources: the scaled "
              "intermediate is the library's own; only integral sources are held to value x factor (5-bit tolerance band on floats).",
         technique="TLA+ cast-pipeline model checked by TLC + trace validation of real conversions by TLC (BigInt floating point)", ref="6/C05"),
+    "C06": dict(
+        text="TLC explores the trait-instantiation chain of the implicit-conversion policy as a state machine on the scaled machine (every "
+             "rep pair x every ratio): totality (no instantiation fires a static_assert), equality with the documented predicate and the "
+             "no-overflow-below-threshold lemma.  TLC then emits 4500+ (R1,R2,k) cases with the predicate's verdict over BigInt (k on and "
+             "next to every rep's 2147-threshold and maximum, reciprocals, rationals, pi, 2^70); each is compiled as is_convertible / "
+             "is_constructible / overload-resolution / common_type queries under g++ and clang++ (a hard error is bisected to the single "
+             "case), call-site probes for .as/.in/==/+ must be accepted/rejected as predicted, and all values in [-2147,2147] of every "
+             "permitted integral case are converted and judged by TLC.",
+        note="Observable = compiler verdicts and values; trusts g++ 12/clang++ 14, TLC, BigInt.  QuantityPoint's surface is covered under C01/C09.",
+        technique="TLA+ trait-chain model checked by TLC + TLC-emitted cases compiled as trait queries/probes + value traces validated by TLC", ref="6/C06"),
 }
 
 
